@@ -241,26 +241,26 @@ CHECKS = {
 
 # additions made when the checks were strengthened after the second round of seeded changes (DESIGN.md §6.5)
 ADDENDA = {
-    "C12": " Variable-scaling transforms make the reported violations differ from the ones the tracker judges; real runs may end with TOO_FEW_REALIZATIONS after valid results. Objective values are shifted (+-1e10, 1e6) and scaled (1e-12, 1e12, 1e-3): near-ties at a large level are not ties. 'Slightly infeasible' results violate two constraint kinds (each within the tolerance); real runs may use a VariableScaler.",
+    "C12": " Variable-scaling transforms make the reported violations differ from the ones the tracker judges; real runs may end with TOO_FEW_REALIZATIONS after valid results. Objective values are shifted (+-1e10, 1e6) and scaled (1e-12, 1e12, 1e-3): near-ties at a large level are not ties. 'Slightly infeasible' results violate two constraint kinds (each within the tolerance); real runs may use a VariableScaler. Infinite objective values and Powell runs that start outside the bounds are included.",
     "C05": " Method names are written plain, plug-in qualified and in other case; windows outside the ensemble are enumerated under every spelling. A zero-weight objective with infinite values may be named in the sort list (exhaustively for n<=4).",
     "C17": " Variables without sampler next to several samplers and realization weights with zeros are generated. Method names in several spellings, and several samplers without an assignment (only the first one perturbs). gradient.merge_realizations is switched on for a third of the cases, and draws of 1100..4500 points are checked per QMC method.",
-    "C06": " A third of the histories follow optimizer-like F,G,F,G patterns at moving points; evaluators that hand out write-protected views of persistent buffers, and x as a write-protected view, are included. Tiny non-zero realization weights (2e-9, 5e-13) are generated next to zeros. The stddev estimator and huge finite garbage (1e160) in inactive entries are included; evaluators may return Fortran-ordered, strided or float32 arrays. Monitored objectives (objective weight 0) are generated. Values next to the largest float with alternating sign are placed in inactive entries; integer-typed result arrays are included.",
-    "C01": " Functions are also obtained together with a gradient whose perturbations partly fail, and values with common offsets up to 1e8 and a small spread are generated (stddev tolerance relative to the spread). All-failed results must have one NaN per function (shape). An evaluator object that handled an evaluation with failures must report a later evaluation exactly as a fresh object does. An exhaustive grid covers every filter-index map of up to 2 objectives and 2 constraints over two filters, evaluated alone / with a gradient / in a batch; a third-party filter plug-in returning scores above one is included.",
+    "C06": " A third of the histories follow optimizer-like F,G,F,G patterns at moving points; evaluators that hand out write-protected views of persistent buffers, and x as a write-protected view, are included. Tiny non-zero realization weights (2e-9, 5e-13) are generated next to zeros. The stddev estimator and huge finite garbage (1e160) in inactive entries are included; evaluators may return Fortran-ordered, strided or float32 arrays. Monitored objectives (objective weight 0) are generated. Values next to the largest float with alternating sign are placed in inactive entries; integer-typed result arrays are included. The evaluator may go by the per-realization summary context.active.",
+    "C01": " Functions are also obtained together with a gradient whose perturbations partly fail, and values with common offsets up to 1e8 and a small spread are generated (stddev tolerance relative to the spread). All-failed results must have one NaN per function (shape). An evaluator object that handled an evaluation with failures must report a later evaluation exactly as a fresh object does. An exhaustive grid covers every filter-index map of up to 2 objectives and 2 constraints over two filters, evaluated alone / with a gradient / in a batch; a third-party filter plug-in returning scores above one is included. Tolerances are relative to the spread / magnitude of the values, a sixth of the cases is in units of 1e-9.",
     "C02": " Per-variable sampler assignments next to masks are generated, fixed columns of the perturbed variables must equal x, and histories that differ in the fixed variables only are included. A quarter of the cases express the whole problem in units of 1e-9..1e6. A negative realization weight with positive sum is generated for unfiltered mean cases. Stddev cases may carry a large common offset (1e5..3e6) on one function. A shared design with staggered failures (another perturbation fails in every realization) is generated. Stddev cases get a failed realization in a third of the cases; monitored objectives (weight zero) are generated.",
-    "C03": " Merged-realization estimation is included for mean/no-filter. Cells with +inf / -inf (also opposite signs in one row) are generated: an infinite value is a value, not a failure (flags and gates only).",
+    "C03": " Merged-realization estimation is included for mean/no-filter. Cells with +inf / -inf (also opposite signs in one row) are generated: an infinite value is a value, not a failure (flags and gates only). The quick tier enumerates three realizations; the objectives may sit alone on the estimator under test; without filters a realization with positive configured weight is never flagged inactive.",
     "C04": " Negative objective weights with a positive total are generated. Configurations with 2-3 CVaR filters (any flavours, with failures) are run end to end and every filter's row is checked on its own. Method names are written plain, plug-in qualified and in other case. A filter object may be asked several times with other values and failures. A maximised objective ranked alone is enumerated exhaustively for n<=4; zero-weight ranked objectives may hold infinite values.",
-    "C07": " A second start() of the same plug-in instance on a changed problem must serve nothing from the first run (length <=2). The full-stack layer is also started with run_step(variables=), so that fixed entries differ from the configured initial values. Method names are also written plug-in qualified (scipy/<method>). The scripted algorithm owns one argument array per shape and overwrites it in place. The full-stack layer includes a point 4e-3 (1+|x|) away from another one and optimizer.tolerance values up to 0.05. The scripted algorithm overwrites every array it receives; full-stack DE cases include a point where every realization fails (+inf).",
-    "C08": " Narrow two-sided bands (5e-4 wide at magnitude 100) with test points inside them and option dicts that carry their own maxiter/maxfun are included. Method names are written plain, as scipy/<method> and in upper case; integer variable types are generated (integrality flags of differential evolution must describe the free variables). max_functions may be configured next to max_iterations. Linear rows whose coefficients on fixed variables cancel in their sum are generated. With parallel differential evolution the constraint objects are evaluated for a population matrix and compared member by member.",
-    "C09": " Relative perturbation types and unbounded (also fixed) variables are generated; configurations rejected at validation are counted. The mask is given as list, tuple, bool or int ndarray, and every nested inner run must start from the values last delivered. Start values a rounding error away from a bound and gradient evaluations in which every perturbation fails are included. Nested plans are also run with a VariableScaler; REAL / INTEGER variable types are generated. The inner tracker may keep its best result between inner runs; a delivered result must keep its variables. Scripted inner runs end 1e-9..1e-3 (relative) away from where they were started. Every result delivered by the nested plan is compared with its snapshot after the outer run.",
-    "C10": " 1-3 samplers with per-variable assignment (unused samplers, variables without sampler), samplers that hand out the array they keep, and two consecutive evaluations are included. Perturbations are also requested alone after a function request at the same, a neighbouring (4e-6 relative) or a distant point; x may sit a rounding error inside a bound. REAL / INTEGER variable types are generated. Realization weights with zeros are generated. Negative magnitudes are generated.",
-    "C11": " Scales-only and offsets-only variable scalers and the split path (function, then gradient-only) are included. Start points outside the bounds and failed realizations up to 'no function values' are included. BasicOptimizer is given the plain dictionary with and without transforms; the variables section may be handed in as a validated object. Default perturbation magnitudes, a CVaR filter on the ranked function and constraint scales of 1e9..1e12 (bounds that come close in the optimizer domain) are included.",
+    "C07": " A second start() of the same plug-in instance on a changed problem must serve nothing from the first run (length <=2). The full-stack layer is also started with run_step(variables=), so that fixed entries differ from the configured initial values. Method names are also written plug-in qualified (scipy/<method>). The scripted algorithm owns one argument array per shape and overwrites it in place. The full-stack layer includes a point 4e-3 (1+|x|) away from another one and optimizer.tolerance values up to 0.05. The scripted algorithm overwrites every array it receives; full-stack DE cases include a point where every realization fails (+inf). For the other methods one realization fails at one pool point.",
+    "C08": " Narrow two-sided bands (5e-4 wide at magnitude 100) with test points inside them and option dicts that carry their own maxiter/maxfun are included. Method names are written plain, as scipy/<method> and in upper case; integer variable types are generated (integrality flags of differential evolution must describe the free variables). max_functions may be configured next to max_iterations. Linear rows whose coefficients on fixed variables cancel in their sum are generated. With parallel differential evolution the constraint objects are evaluated for a population matrix and compared member by member. output_dir is set in a third of the cases.",
+    "C09": " Relative perturbation types and unbounded (also fixed) variables are generated; configurations rejected at validation are counted. The mask is given as list, tuple, bool or int ndarray, and every nested inner run must start from the values last delivered. Start values a rounding error away from a bound and gradient evaluations in which every perturbation fails are included. Nested plans are also run with a VariableScaler; REAL / INTEGER variable types are generated. The inner tracker may keep its best result between inner runs; a delivered result must keep its variables. Scripted inner runs end 1e-9..1e-3 (relative) away from where they were started. Every result delivered by the nested plan is compared with its snapshot after the outer run. A scripted outer algorithm that comes back to earlier points runs over a scripted inner run whose result depends on its start.",
+    "C10": " 1-3 samplers with per-variable assignment (unused samplers, variables without sampler), samplers that hand out the array they keep, and two consecutive evaluations are included. Perturbations are also requested alone after a function request at the same, a neighbouring (4e-6 relative) or a distant point; x may sit a rounding error inside a bound. REAL / INTEGER variable types are generated. Realization weights with zeros are generated. Negative magnitudes are generated. Injected samplers carry per-sampler shared flags.",
+    "C11": " Scales-only and offsets-only variable scalers and the split path (function, then gradient-only) are included. Start points outside the bounds and failed realizations up to 'no function values' are included. BasicOptimizer is given the plain dictionary with and without transforms; the variables section may be handed in as a validated object. Default perturbation magnitudes, a CVaR filter on the ranked function and constraint scales of 1e9..1e12 (bounds that come close in the optimizer domain) are included. A scaler with a single 0-d factor is included.",
     "C13": " Scales-only and offsets-only variable scalers are included. A quarter of the cases place values of magnitude 1..1e6 on, or 1e-6..1e-4 (relative) inside / outside, a finite bound. Variable masks are generated, and the same point is also evaluated with functions and gradients in one call. The transforms object may have been used for a second configuration in between (known finding linear-diff-after-transform-reuse). The transforms object may also have been used for another configuration before the one that is run. Rows whose largest scaled coefficient is exactly one are generated for the 'transforms object used before' mode.",
-    "C14": " SLSQP is run plain, with split_evaluations and speculative (functions and gradient in one evaluation). Faults can hit single vectors of a batch (each population member of vectorized differential evolution, vectors of an evaluator step). Evaluator exceptions include OSError types, with and without redirected optimizer output. A descriptor-count oracle decides that runs with redirected output leave no file descriptor open. When the budget equals what the run needs (all evaluations made and delivered as without a budget) the exit code must be the unconstrained one.",
+    "C14": " SLSQP is run plain, with split_evaluations and speculative (functions and gradient in one evaluation). Faults can hit single vectors of a batch (each population member of vectorized differential evolution, vectors of an evaluator step). Evaluator exceptions include OSError types, with and without redirected optimizer output. A descriptor-count oracle decides that runs with redirected output leave no file descriptor open. When the budget equals what the run needs (all evaluations made and delivered as without a budget) the exit code must be the unconstrained one. The user-domain and optimizer-domain result lists of every evaluation must correspond item by item.",
     "C15": " A nested inner plan on its own OptimizerContext is included, and the outer step whose run contained the abort must itself report USER_ABORT. Aborted plans are also re-entered through their plan function, and a BasicOptimizer object with abort and results callbacks is run three times (exactly-once delivery per run). A nested plan function may run a second step; BasicOptimizer objects run every history of three runs over {finishes, aborted, evaluator raises}. The latch must be visible when the FINISHED event of the aborted step is delivered; a nested plan without handlers is followed by the outer tracker with FINISHED_EVALUATION unobserved. An observer may be registered between two steps of a plan; it must receive every later event. No START_*_STEP event of a plan in the aborted chain may follow the abort (also the next step run by a nested plan's function).",
-    "C16": " An unrelated optimization may be executed from inside a callback of the run, and fresh-interpreter references use a different PYTHONHASHSEED (always for configurations with several QMC engines). Samplers are generated with default and explicit options (distribution parameters, unscrambled QMC). Every run disturbs NumPy's global generator differently from inside the evaluator. One 40 x 40 case per run and Generator-valued DE seeds in reused configuration objects are included. Seeds above 2**32 and 2**64 and sequences of integers are generated (differing by multiples of 2**32), configurations are also handed over as dictionaries that are validated anew per run (with garbage collection in between), and the same samplers are assigned the other way round in interfering runs. Interfering actions include an unrelated run that ends with a LinAlgError and a prioritized catch-all sampler plug-in registered on another context's own manager; contexts may set up their own default manager.",
-    "C18": " Inconsistent shapes include single-column coefficient matrices and non-broadcastable bound vectors, with and without scaler offsets. All array fields are also handed in as ndarrays the caller overwrites afterwards, and every section as an already validated object that must stay unchanged. 'del' on fields of frozen objects must fail; matrices for 1-D fields and index arrays of the wrong length must be rejected. Indices beyond the configured filters / estimators / samplers must be rejected; the rejection of a consistent configuration is a violation. Sections validated on their own must be clamped / normalized as well; enumeration arrays given as matrices must be rejected. Sections that only repeat the defaults may be left out.",
-    "C19": " Lookups include method names that themselves contain a slash (external/scipy/<method>). One fake plug-in matches two of its method names case-sensitively. An entry-point plug-in installed under a mixed-case name exists for all six types. Requests whose plug-in part is another plug-in's method name, and non-ASCII plug-in names, are included. An unsupported request that raises anything but ConfigError is a violation. A plug-in may be registered under a name that is also one of its method names.",
-    "C20": " Configurations started with run_step(variables=) are included, and stand-in optimizer processes that follow the protocol die after 1 or 2 exchanged messages (no-hang clause before the first evaluation). A failing backend plug-in (exception with/without message, bare assert, exit status 3, after 0-3 evaluations) runs inside the optimizer process, and two configurations exchange messages larger than one pipe buffer. One configuration has 3000 variables (messages above the pipe capacity), one has path-valued options, one an evaluation that takes 11 s; the evaluator raises ValueError, OSError subclasses, KeyError and a custom exception. NumPy scalars as option values, KeyboardInterrupt / SystemExit from the evaluator, a run from the orphaned child of the importing process and the delimiter word inside a path option are included. An option value that cannot be serialised may end the run with an error but must not leave a process behind. The message layer is exercised on its own with every message length in a window around 1x..8x the pipe capacity; the process running the step is killed during an evaluation (the optimizer process must end by itself); non-ASCII directory and file names; a stand-in whose read end is gone before its request is answered, also with a 3000-variable configuration. Failing-backend scenarios are also run with PYTHONOPTIMIZE=1; NumPy booleans are among the option values.",
+    "C16": " An unrelated optimization may be executed from inside a callback of the run, and fresh-interpreter references use a different PYTHONHASHSEED (always for configurations with several QMC engines). Samplers are generated with default and explicit options (distribution parameters, unscrambled QMC). Every run disturbs NumPy's global generator differently from inside the evaluator. One 40 x 40 case per run and Generator-valued DE seeds in reused configuration objects are included. Seeds above 2**32 and 2**64 and sequences of integers are generated (differing by multiples of 2**32), configurations are also handed over as dictionaries that are validated anew per run (with garbage collection in between), and the same samplers are assigned the other way round in interfering runs. Interfering actions include an unrelated run that ends with a LinAlgError and a prioritized catch-all sampler plug-in registered on another context's own manager; contexts may set up their own default manager. The repeated run may happen with DEBUG logging switched on.",
+    "C18": " Inconsistent shapes include single-column coefficient matrices and non-broadcastable bound vectors, with and without scaler offsets. All array fields are also handed in as ndarrays the caller overwrites afterwards, and every section as an already validated object that must stay unchanged. 'del' on fields of frozen objects must fail; matrices for 1-D fields and index arrays of the wrong length must be rejected. Indices beyond the configured filters / estimators / samplers must be rejected; the rejection of a consistent configuration is a violation. Sections validated on their own must be clamped / normalized as well; enumeration arrays given as matrices must be rejected. Sections that only repeat the defaults may be left out. Inverted bounds on a masked-out variable must be rejected.",
+    "C19": " Lookups include method names that themselves contain a slash (external/scipy/<method>). One fake plug-in matches two of its method names case-sensitively. An entry-point plug-in installed under a mixed-case name exists for all six types. Requests whose plug-in part is another plug-in's method name, and non-ASCII plug-in names, are included. An unsupported request that raises anything but ConfigError is a violation. A plug-in may be registered under a name that is also one of its method names. The fake plug-ins log who is asked: an explicit request consults the named plug-in only; <name>/default requests are included.",
+    "C20": " Configurations started with run_step(variables=) are included, and stand-in optimizer processes that follow the protocol die after 1 or 2 exchanged messages (no-hang clause before the first evaluation). A failing backend plug-in (exception with/without message, bare assert, exit status 3, after 0-3 evaluations) runs inside the optimizer process, and two configurations exchange messages larger than one pipe buffer. One configuration has 3000 variables (messages above the pipe capacity), one has path-valued options, one an evaluation that takes 11 s; the evaluator raises ValueError, OSError subclasses, KeyError and a custom exception. NumPy scalars as option values, KeyboardInterrupt / SystemExit from the evaluator, a run from the orphaned child of the importing process and the delimiter word inside a path option are included. An option value that cannot be serialised may end the run with an error but must not leave a process behind. The message layer is exercised on its own with every message length in a window around 1x..8x the pipe capacity; the process running the step is killed during an evaluation (the optimizer process must end by itself); non-ASCII directory and file names; a stand-in whose read end is gone before its request is answered, also with a 3000-variable configuration. Failing-backend scenarios are also run with PYTHONOPTIMIZE=1; NumPy booleans are among the option values. One optimizer object is started twice (first start ended by an evaluator exception); an output directory that does not exist is included.",
 }
 
 NOT_YET = "no check registered"
